@@ -22,6 +22,7 @@ verus! {
 //@type src/expr/keywords.rs const KEYWORDS
 //@include standins_fn.rs
 //@include sem_expr.rs
+//@include sem_ruleset.rs
 
 pub mod code {
 use super::*;
